@@ -222,3 +222,26 @@ Example fmt_medium_example :
   medium_new (2 ^ 64) (10 ^ 19) 15 (2 ^ 959) = Ok (2 ^ 959 / (10 ^ 19) ^ 15, 15) /\
   write_chunk (10 ^ 19) 16 ((10 ^ 19) ^ 16 - 1) = Ok tt /\ prepared_word 10 41 1 (2 ^ 64 - 1) = Ok 20 /\ prepared_word 3 41 40 (2 ^ 64 - 1) = Ok 41.
 Proof. vm_compute. repeat split; reflexivity. Qed.
+
+(** power-of-two printer of a value of len >= 1 words whose top word has lz < w leading zeros: neither subtraction underflows, and the
+    first `bits` lies in (0, w + log_radix) - it fits u32 and the loop starts inside the top word *)
+Theorem pow2_first_bits_ok len w lz lr :
+  1 <= len -> 0 <= lz < w -> 1 <= lr -> w + lr <= 2 ^ 32 ->
+  exists bits, pow2_first_bits len w lz lr = Ok bits /\ 0 < bits < w + lr.
+Proof.
+  intros Hl Hz Hr Hw. unfold pow2_first_bits, pow2_width, gen5_fmt_pow2_bits, gen5_fmt_pow2_min_width, gen5_fmt_pow2_first_bits, ceil_div5.
+  assert (lz < len * w) as H0 by nia.
+  destruct (Z.leb_spec lz (len * w)) as [_|]; [|lia].
+  set (a := len * w - lz) in *. assert (1 <= a) as Ha by lia.
+  destruct (Z.eqb_spec a 0) as [|_]; [lia|].
+  pose proof (Z.mul_div_le (a - 1) lr ltac:(lia)) as D1. pose proof (Z.mul_succ_div_gt (a - 1) lr ltac:(lia)) as D2.
+  assert (0 <= (a - 1) / lr) as D0 by (apply Z.div_pos; lia).
+  set (q := (a - 1) / lr) in *. rewrite Z.max_l by lia.
+  assert ((len - 1) * w < (q + 1) * lr) as L1 by (subst a; nia).
+  assert ((q + 1) * lr < (len - 1) * w + w + lr) as L2 by (subst a; nia).
+  destruct (Z.leb_spec ((len - 1) * w) ((q + 1) * lr)) as [_|]; [|lia].
+  destruct (Z.ltb_spec ((q + 1) * lr - (len - 1) * w) (2 ^ 32)) as [_|]; [|lia].
+  eexists. split; [reflexivity | lia].
+Qed.
+Example pow2_first_bits_example : pow2_first_bits 3 64 63 3 = Ok 1 /\ pow2_first_bits 3 64 0 5 = Ok 67 /\ pow2_first_bits 1 64 63 4 = Ok 4.
+Proof. vm_compute. repeat split; reflexivity. Qed.
